@@ -130,7 +130,7 @@ def history(draw, regkind='posix', gap=False):
             top = max(shadow[p], default=-1)
             above = [v for v, r in VERSIONS if r > top]
             below = [v for v, r in VERSIONS if r <= top]
-            if above and len(shadow[p]) < 3 and (not below or draw(st.integers(0, 9)) < 7):
+            if above and len(shadow[p]) < 3 and (not below or draw(st.integers(0, 9)) < 6):
                 version = draw(st.sampled_from(above[:4]))
             else:
                 # half of the refused candidates sit right under the top: between the two highest published versions
@@ -142,6 +142,10 @@ def history(draw, regkind='posix', gap=False):
             if RANK[version] > top:
                 shadow[p].append(RANK[version])
             op.update(v=version, kind=draw(st.sampled_from(['dir', 'zip'])))
+            if RANK[version] <= top and draw(st.integers(0, 9)) < 4:
+                # the package is handed to the handle of *another* project (Repo.publish(project, package) takes both):
+                # whatever the handle, nothing that is not greater than the project's releases may get in
+                op['via'] = 1 - p
         elif kind == 'train':
             clock += draw(st.integers(1, 5))
             tag = {'mode': draw(st.sampled_from(['trigger', 'trigger', 'explicit'])), 'ts': clock, 'us': draw(st.sampled_from([0, 0, 250000]))}
@@ -154,6 +158,8 @@ def history(draw, regkind='posix', gap=False):
                 states=draw(st.lists(_state, min_size=1, max_size=3)),
                 tag=tag,
             )
+            if op['r'] is not None and draw(st.integers(0, 9)) < 3:
+                op['respell'] = True  # the explicit release key in an equal PEP 440 spelling (1.0 for 1.0.0), if it has one
             if not crashable:
                 op['h'] = draw(st.sampled_from([None, 'a', 'a', 'b']))  # through a long-lived release handle
             trains[p] += 1
@@ -173,6 +179,41 @@ def history(draw, regkind='posix', gap=False):
     if crashable:
         spec['staging'] = draw(st.sampled_from([None, None, 'other-fs']))
     return spec
+
+
+@st.composite
+def guard_history(draw):
+    """Short crash-free histories around the two acceptance guards that random histories seldom reach: a refused version
+    handed to the handle of another project (empty or not), and trainings / reads addressing a release by an equal PEP 440
+    spelling of its key (1.0 for 1.0.0)."""
+    clock = [0]
+
+    def train(p, r, respell):
+        clock[0] += draw(st.integers(1, 5))
+        op = {'op': 'train', 'p': p, 'r': r, 'states': draw(st.lists(_state, min_size=1, max_size=2)), 'tag': {'mode': 'trigger', 'ts': clock[0], 'us': 0}}
+        if respell:
+            op['respell'] = True
+        return op
+
+    kind = lambda: draw(st.sampled_from(['dir', 'zip']))  # noqa: E731
+    if draw(st.booleans()):
+        first = draw(st.sampled_from([v for v, r in VERSIONS if 3 <= r <= 10]))
+        ops = [{'op': 'publish', 'p': 0, 'v': first, 'kind': kind()}]
+        if draw(st.booleans()):
+            ops.append({'op': 'publish', 'p': 1, 'v': draw(st.sampled_from(['0.1', '1.2'])), 'kind': kind()})
+        if draw(st.booleans()):
+            ops.append(train(0, None, False))
+        refused = draw(st.sampled_from([v for v, r in VERSIONS if r <= RANK[first]]))
+        ops.append({'op': 'publish', 'p': 0, 'v': refused, 'kind': kind(), 'via': 1})
+        ops += [train(0, None, False), {'op': 'read', 'p': 0, 'r': None, 'g': None}]
+    else:
+        ops = [{'op': 'publish', 'p': 0, 'v': draw(st.sampled_from(['1.0', '1.0.0'])), 'kind': kind()}]
+        if draw(st.booleans()):
+            ops.append({'op': 'publish', 'p': 0, 'v': '1.2', 'kind': kind()})
+        ops.append(train(0, 0, draw(st.integers(0, 9)) < 7))
+        ops.append(train(0, 0, draw(st.booleans())))
+        ops.append({'op': 'read', 'p': 0, 'r': 0, 'g': None})
+    return {'registry': 'posix', 'ops': ops, 'staging': None}
 
 
 # ---- model -------------------------------------------------------------------------------------------------------------
@@ -536,7 +577,12 @@ class History:
             self.classes.add('retry-after-crash')
         new = ('rel', p, v, p not in model or not model[p])
         tags = ['op=publish', 'pkg=' + op['kind']]
-        return self.mutate(i, op, model, after, new, tags, lambda crash: self.ex.publish(p, pkg['path'], crash), not accept, (p,))
+        handle = p
+        if op.get('via') is not None and not accept:
+            handle = PROJECTS[op['via']]
+            tags.append('via=other-project' + ('-empty' if not model.get(handle) else ''))
+            self.classes.add('publish:via-other-project')
+        return self.mutate(i, op, model, after, new, tags, lambda crash: self.ex.publish(handle, pkg['path'], crash), not accept, (p,))
 
     def do_train(self, i, op, model):
         p = PROJECTS[op['p']]
@@ -559,12 +605,19 @@ class History:
             self.classes.add('gap:train-after-prune')
         new = ('gen', p, v, number)
         explicit = None if op['r'] is None else v
+        ttags = ['op=train']
+        if explicit is not None and op.get('respell'):
+            twins = [x for x, r in VERSIONS if r == RANK[v] and x != v]
+            if twins:
+                explicit = twins[0]
+                ttags.append('release=equal-spelling')
+                self.classes.add('train:respelled-release')
         if op.get('h') and explicit is not None and not self.ex.crashable:
             self.classes.add('train:live-handle')
             call = lambda crash: self.ex.train(p, explicit, op['states'], op['tag'], crash, handle=op['h'])  # noqa: E731
         else:
             call = lambda crash: self.ex.train(p, explicit, op['states'], op['tag'], crash)  # noqa: E731
-        return self.mutate(i, op, model, after, new, ['op=train'], call, False, (p, v))
+        return self.mutate(i, op, model, after, new, ttags, call, False, (p, v))
 
     def do_read(self, i, op, model):
         p = PROJECTS[op['p']]
@@ -963,6 +1016,7 @@ def campaigns(ctx):
         Campaign('history', history('posix'), check_history, 70, 12),
         Campaign('gaps', history('posix', gap=True), check_history, 12, 3),
         Campaign('volatile', history('volatile'), check_history, 30, 150),
+        Campaign('guards', guard_history(), check_history, 24, 12),
     ]
 
 
